@@ -135,7 +135,8 @@ ElemUse::getNextChildElemToExecute(
 {
     const ElemTemplateElement* nextElement = 0;
     
-    if (m_attributeSetsNamesCount > 0)
+    if (m_attributeSetsNamesCount > 0 &&
+        isElementSkipped(executionContext) == false)
     {
         nextElement = getNextAttributeSet(executionContext);
     }
@@ -169,7 +170,8 @@ ElemUse::getFirstChildElemToExecute(StylesheetExecutionContext&     executionCon
     if (getXSLToken() != StylesheetConstructionContext::ELEMNAME_COPY ||
         executionContext.getCurrentNode()->getNodeType() == XalanNode::ELEMENT_NODE)
     {
-        if (m_attributeSetsNamesCount > 0)
+        if (m_attributeSetsNamesCount > 0 &&
+            isElementSkipped(executionContext) == false)
         {
             // reset
             executionContext.getUseAttributeSetIndexes().attributeSetNameIndex = 0;
@@ -230,6 +232,18 @@ ElemUse::getNextAttributeSet(
 void
 ElemUse::evaluateAVTs(StylesheetExecutionContext&   /*executionContext*/) const
 {
+}
+
+
+
+bool
+ElemUse::isElementSkipped(StylesheetExecutionContext&   executionContext) const
+{
+    // An xsl:element with an illegal name creates no element and has not
+    // called startElement(), so there is no state for its attribute sets,
+    // and there is nothing their attributes could be added to.
+    return getXSLToken() == StylesheetConstructionContext::ELEMNAME_ELEMENT &&
+           executionContext.getSkipElementAttributes() == true;
 }
 #endif
 
